@@ -1018,6 +1018,10 @@ M('C07', 'TransferMatrix dtype from the first tensors only (original defect)', M
   "dtype = np.result_type(*[B.dtype for B in M + N])", "dtype = np.promote_types(M[0].dtype, N[0].dtype)",
   'DTYPE-all-tensors')
 
+M('C07', 'canonical_form_infinite1 rescales a (shared) stored tensor in place (original defect)', MPS,
+  "        self._B[i1] = self._B[i1] / np.sqrt(norm)  # correct norm again\n",
+  "        self._B[i1] /= np.sqrt(norm)  # correct norm again\n", 'SITE-shared-inplace')
+
 # ---------------------------------------------------------------- C16 / C19
 M('C16', 'GMRES restart: relative residual norm used for normalisation (round-3 seed b)', KRY,
   """        self.total_error.append([npc.norm(self.rs[-1]) / self.b_norm])
